@@ -501,6 +501,15 @@ func ruleVariableOrder(p *Prog, r *Report) {
 	// ListNode.Variables walks the children in index order and takes own names from the position map
 	if fn := p.MustFunc(r, "ast", "(*ListNode).Variables"); fn != nil {
 		key := rule + ":ast.(*ListNode).Variables:walk"
+		if d, decided, good := listVariablesByEvaluation(p, fn); decided {
+			if good {
+				r.ok(rule, key, p.Pos(fn.Pos()), d)
+			} else {
+				r.bad(rule, key, p.Pos(fn.Pos()), d)
+			}
+			r.Floor(rule, 12)
+			return
+		}
 		asc, usesChild, usesOwn := false, false, false
 		for _, b := range fn.Blocks {
 			for _, instr := range b.Instrs {
@@ -1171,4 +1180,66 @@ func numberPrefixesByEvaluation(p *Prog, nf *ssa.Function) (detail string, decid
 		return strings.Join(firstN(bad, 3), "; "), true, false
 	}
 	return fmt.Sprintf("evaluated on %d literals: the 0x/0b/0o prefixes, hexadecimal digits and the exponent marker are accepted in both letter cases and stay in one number token", len(lits)), true, true
+}
+
+// listVariablesByEvaluation evaluates ListNode.Variables on a list of four
+// elements - a child whose Variables() is bound to [a], the variable x, a
+// child bound to [b c], the variable y - and expects [a x b c y]: children in
+// index order, every own variable at its own position.
+func listVariablesByEvaluation(p *Prog, fn *ssa.Function) (detail string, decided, good bool) {
+	leaf, empty := p.namedType(modPath+"/pkg/ast", "IntNode"), p.namedType(modPath+"/pkg/ast", "emptyItemNode")
+	if leaf == nil || empty == nil {
+		return "", false, false
+	}
+	in := NewInterp(p)
+	in.PathBind["p0.values"] = Val{K: KSlice, S: "p0.values", Len: 4}
+	c0, c2 := Val{K: KPtr, S: "child0"}, Val{K: KPtr, S: "child2"}
+	ph := Val{K: KAgg, S: "placeholder", Agg: map[string]cell{}}
+	in.PathBind["p0.values[0]"] = Val{K: KIface, T: types.NewPointer(leaf), Inner: &c0}
+	in.PathBind["p0.values[1]"] = Val{K: KIface, T: empty, Inner: &ph}
+	in.PathBind["p0.values[2]"] = Val{K: KIface, T: types.NewPointer(leaf), Inner: &c2}
+	in.PathBind["p0.values[3]"] = Val{K: KIface, T: empty, Inner: &ph}
+	in.MapKeys["p0.variables"] = []Val{strVal("x"), strVal("y")}
+	in.InitBind[`p0.variables["x"]`] = int64Val(1)
+	in.InitBind[`p0.variables["y"]`] = int64Val(3)
+	in.PathBind["vars0"] = Val{K: KSlice, S: "vars0", Len: 1}
+	in.PathBind["vars0[0]"] = strVal("a")
+	in.PathBind["vars2[0]"] = strVal("b")
+	in.PathBind["vars2[1]"] = strVal("c")
+	in.Bind = func(v ssa.Value, fr *frame) (Val, bool) {
+		c, ok := v.(*ssa.Call)
+		if !ok || !c.Common().IsInvoke() || c.Common().Method.Name() != "Variables" {
+			return Val{}, false
+		}
+		recv := fr.eval(c.Common().Value)
+		if recv.K != KIface || recv.Inner == nil {
+			return Val{}, false
+		}
+		switch recv.Inner.S {
+		case "child0":
+			return Val{K: KSlice, S: "vars0", Len: 1}, true
+		case "child2":
+			return Val{K: KSlice, S: "vars2", Len: 2}, true
+		case "placeholder":
+			return Val{K: KSlice, S: "none", Len: 0}, true
+		}
+		return Val{}, false
+	}
+	out := in.Run(fn, defaultArgs(fn), nil)
+	rets := out.Frame.ReturnVals()
+	if len(in.Stuck) > 0 || out.CanPanic || len(rets) != 1 || rets[0][0].K != KSlice || rets[0][0].Len < 0 {
+		return "", false, false
+	}
+	var got []string
+	for i := 0; i < rets[0][0].Len; i++ {
+		e := in.Elem(rets[0][0], i, types.Typ[types.String])
+		if e.K != KStr {
+			return "", false, false
+		}
+		got = append(got, e.S)
+	}
+	if strings.Join(got, " ") != "a x b c y" {
+		return fmt.Sprintf("a list of [child with variables a] x [child with variables b c] y lists %v, expected [a x b c y]: the names must come in the order of the positions they stand at", got), true, false
+	}
+	return "evaluated on a list of two children and two own variables: the names come in index order - a child's names where the child stands, an own variable's name at its own position", true, true
 }
